@@ -1,1 +1,153 @@
-verus!{ }
+// Independent RFC layer: spec functions only, written from RFC 3550 section 6, RFC 4585 section 6 and
+// RFC 5104 section 4.3.1 -- not from the code.  `be16/be32/be64/pad4` live in the prelude.
+verus! {
+
+// ---- RFC 3550 6.4.1: common header -------------------------------------------------------------
+//  0                   1                   2                   3
+//  0 1 2 3 4 5 6 7 8 9 0 1 2 3 4 5 6 7 8 9 0 1 2 3 4 5 6 7 8 9 0 1
+// |V=2|P|   RC    |      PT       |             length            |
+pub open spec fn hdr_version(s: Seq<u8>) -> int {
+    s[0] as int / 64
+}
+
+pub open spec fn hdr_pad(s: Seq<u8>) -> bool {
+    (s[0] as int / 32) % 2 == 1
+}
+
+pub open spec fn hdr_count(s: Seq<u8>) -> int {
+    s[0] as int % 32
+}
+
+pub open spec fn hdr_pt(s: Seq<u8>) -> int {
+    s[1] as int
+}
+
+/// length field: "the length of this RTCP packet in 32-bit words minus one, including the header and any padding"
+pub open spec fn hdr_bytes(s: Seq<u8>) -> int {
+    4 * (be16(s, 2) + 1)
+}
+
+/// exactly and consistently framed packet of type `pt` with minimum size `min`
+pub open spec fn framed(s: Seq<u8>, pt: int, min: int) -> bool {
+    &&& s.len() >= 4
+    &&& s.len() >= min
+    &&& hdr_version(s) == 2
+    &&& hdr_pt(s) == pt
+    &&& hdr_bytes(s) == s.len()
+    &&& (hdr_pad(s) ==> s[s.len() - 1] != 0)
+}
+
+/// the number of trailing padding octets announced by the packet (0 when the P bit is clear)
+pub open spec fn pad_count(s: Seq<u8>) -> int {
+    if hdr_pad(s) {
+        s[s.len() - 1] as int
+    } else {
+        0
+    }
+}
+
+/// image of the common header for a packet of `n` bytes (the 16-bit length field holds n/4-1; configurations with
+/// n > 262144 are not representable, see `representable_*`)
+pub open spec fn img_header(pad: int, count: int, pt: int, n: int) -> Seq<u8> {
+    seq![
+        (128 + (if pad > 0 { 32int } else { 0 }) + count) as u8,
+        pt as u8,
+        (((n / 4 - 1) % 65536) / 256) as u8,
+        ((n / 4 - 1) % 256) as u8,
+    ]
+}
+
+/// RFC 3550 6.4.1 padding: "the last octet of the padding is a count of how many padding octets should be ignored,
+/// including itself"; the others are zero
+pub open spec fn img_padding(p: int) -> Seq<u8> {
+    if p <= 0 {
+        Seq::empty()
+    } else {
+        Seq::new((p - 1) as nat, |i: int| 0u8).push(p as u8)
+    }
+}
+
+pub open spec fn zeros(n: int) -> Seq<u8> {
+    Seq::new((if n > 0 { n } else { 0 }) as nat, |i: int| 0u8)
+}
+
+// ---- RFC 3550 6.7 APP ---------------------------------------------------------------------------
+// header(subtype in the count bits, PT=204) | SSRC | name (4 octets ASCII) | application-dependent data (multiple of 32 bits)
+pub open spec fn app_ok(s: Seq<u8>) -> bool {
+    framed(s, 204, 12)
+}
+
+pub open spec fn app_data(s: Seq<u8>) -> Seq<u8> {
+    s.subrange(12, s.len() - pad_count(s))
+}
+
+pub open spec fn img_app(ssrc: int, padding: int, subtype: int, name: Seq<u8>, data: Seq<u8>) -> Seq<u8> {
+    img_header(padding, subtype, 204, 12 + data.len() + padding) + img_be32(ssrc) + name + zeros(4 - name.len()) + data
+        + img_padding(padding)
+}
+
+pub open spec fn representable_app(padding: int, subtype: int, name: Seq<u8>, name_ascii: bool, data: Seq<u8>) -> bool {
+    &&& padding % 4 == 0
+    &&& subtype <= 31
+    &&& name.len() <= 4
+    &&& name_ascii
+    &&& data.len() % 4 == 0
+    &&& 12 + data.len() + padding <= MAX_RTCP_BYTES
+}
+
+// ---- error truthfulness (property C18) ------------------------------------------------------------
+pub open spec fn err_truthful(s: Seq<u8>, e: crate::RtcpParseError, own_pt: int) -> bool {
+    match e {
+        crate::RtcpParseError::UnsupportedVersion(v) => s.len() >= 1 && v as int == hdr_version(s) && v != 2,
+        crate::RtcpParseError::PacketTypeMismatch { actual, requested } => s.len() >= 2 && actual as int == hdr_pt(s)
+            && requested as int == own_pt && actual != requested,
+        crate::RtcpParseError::Truncated { expected, actual } => expected > actual,
+        crate::RtcpParseError::TooLarge { expected, actual } => expected < actual,
+        _ => true,
+    }
+}
+
+// ---- functional outcome of the common header check (order of checks pinned; used for C12 "identical outcome") ----
+pub open spec fn check_packet_spec(s: Seq<u8>, pt: u8, min: usize) -> Result<(), crate::RtcpParseError> {
+    if s.len() < min {
+        Err(crate::RtcpParseError::Truncated { expected: min, actual: s.len() as usize })
+    } else if hdr_version(s) != 2 {
+        Err(crate::RtcpParseError::UnsupportedVersion(hdr_version(s) as u8))
+    } else if hdr_pt(s) != pt {
+        Err(crate::RtcpParseError::PacketTypeMismatch { actual: s[1], requested: pt })
+    } else if s.len() < hdr_bytes(s) {
+        Err(crate::RtcpParseError::Truncated { expected: hdr_bytes(s) as usize, actual: s.len() as usize })
+    } else if s.len() > hdr_bytes(s) {
+        Err(crate::RtcpParseError::TooLarge { expected: hdr_bytes(s) as usize, actual: s.len() as usize })
+    } else if hdr_pad(s) && s[s.len() - 1] == 0 {
+        Err(crate::RtcpParseError::InvalidPadding)
+    } else {
+        Ok(())
+    }
+}
+
+pub open spec fn outcome_matches<T>(r: Result<T, crate::RtcpParseError>, sp: Result<(), crate::RtcpParseError>) -> bool {
+    match r {
+        Ok(_) => sp is Ok,
+        Err(e) => sp == Err::<(), crate::RtcpParseError>(e),
+    }
+}
+
+/// exact-error clauses of C18 for parsers built on the common header check
+pub open spec fn err_exact<T>(s: Seq<u8>, r: Result<T, crate::RtcpParseError>, pt: int, min: int) -> bool {
+    &&& (s.len() < min ==> r == Err::<T, crate::RtcpParseError>(
+        crate::RtcpParseError::Truncated { expected: min as usize, actual: s.len() as usize },
+    ))
+    &&& (s.len() >= min && s.len() >= 4 && hdr_version(s) == 2 && hdr_pt(s) == pt && hdr_bytes(s) > s.len() ==> r == Err::<
+        T,
+        crate::RtcpParseError,
+    >(crate::RtcpParseError::Truncated { expected: hdr_bytes(s) as usize, actual: s.len() as usize }))
+    &&& (s.len() >= min && s.len() >= 4 && hdr_version(s) == 2 && hdr_pt(s) == pt && hdr_bytes(s) < s.len() ==> r == Err::<
+        T,
+        crate::RtcpParseError,
+    >(crate::RtcpParseError::TooLarge { expected: hdr_bytes(s) as usize, actual: s.len() as usize }))
+}
+
+pub spec const MAX_RTCP_BYTES: int = 0x40000;
+
+} // verus!
